@@ -34,6 +34,13 @@ const TEXT_ALPHA: &[u8] = b"abcdefghijklmnopqrstuvwxyzABCDEFGHIJKLMNOPQRSTUVWXYZ
 /// codepage-stable text: ASCII without carets plus (one in seven) Latin-1 letters 0xC0..=0xFF, which the default codepage maps
 /// to one byte each way (so the byte-level model applies) but which are two bytes inside a Rust String
 pub fn ascii_text(rng: &mut Rng, len: usize) -> Vec<u8> { (0..len).map(|_| *rng.pick(TEXT_ALPHA)).collect() }
+/// exactly len bytes of well-formed UTF-8: ASCII mixed with 2- and 3-byte characters, never cut inside a character
+pub fn utf8_text(rng: &mut Rng, len: usize) -> Vec<u8> {
+    const CH: [&str; 8] = ["\u{e9}", "\u{fc}", "\u{448}", "\u{11b}", "\u{65e5}", "\u{20ac}", "\u{3b1}", "\u{ff8f}"];
+    let mut v: Vec<u8> = vec![];
+    while v.len() < len { let c = if rng.chance(1, 3) { rng.pick(&CH).as_bytes().to_vec() } else { vec![*rng.pick(TEXT_ALPHA)] }; if v.len() + c.len() <= len { v.extend(c); } else { v.push(b'x'); } }
+    v
+}
 pub fn stable_text(rng: &mut Rng, len: usize) -> Vec<u8> { (0..len).map(|_| if rng.chance(1, 7) { 0xC0 + rng.below(0x40) as u8 } else { *rng.pick(TEXT_ALPHA) }).collect() }
 
 fn boundary(rng: &mut Rng, w: usize) -> u64 {
@@ -65,8 +72,8 @@ pub fn gen_atom(rng: &mut Rng, a: &Atom, count: u64, dirt: u8, m: &mut Meta) -> 
             let len = match rng.below(5) { 0 => 0, 1 => *n, 2 => n - 1, _ => rng.below(*n as u64 + 1) as usize };
             // the NUL-terminated writer cuts to n-1 bytes: a full-width text decodes but does not re-encode identically
             if *z && len == *n && len > 0 { m.canonical = false; m.unrepresentable = true; }
-            // raw fields (passwords) are not codepage converted: only ASCII is stable there
-            let mut t = if *raw { ascii_text(rng, len) } else { stable_text(rng, len) }; t.resize(*n, 0);
+            // raw fields (passwords) are not codepage converted: they carry the text's UTF-8 bytes as they are (well-formed UTF-8 is stable there)
+            let mut t = if *raw { if rng.chance(1, 2) { utf8_text(rng, len) } else { ascii_text(rng, len) } } else { stable_text(rng, len) }; t.resize(*n, 0);
             if len < *n && dirty(rng) { m.canonical = false; for i in len + 1..*n { t[i] = rng.byte(); } }
             t
         },
